@@ -343,4 +343,87 @@ var propParallel = stats.ParallelProp(R, "parallel", gen1, check, 6)
 
 func TestParallel(t *testing.T) { rapid.Check(t, propParallel) }
 
+// Siblings: a short history of messages decoded one after the other in the same process, each differing
+// from its predecessor in a single field, often by one unit or one bit (an operator corrects the antenna
+// height; a re-surveyed coordinate moves by a millimetre) - or repeating it exactly.  Every decode must
+// give that message's own fields, whatever was decoded before.
+type SibCase struct {
+	Cases []Case `json:"messages"`
+}
+
+func checkSiblings(c SibCase, o *stats.Obs) error {
+	for i, cs := range c.Cases {
+		oo := &stats.Obs{}
+		if err := check(cs, oo); err != nil {
+			o.Key = "history/" + oo.Key
+			return fmt.Errorf("message %d of a history of %d (each differs from the one before in one field): %v", i, len(c.Cases), err)
+		}
+	}
+	o.NonTrivial = len(c.Cases) >= 2
+	o.Class(fmt.Sprintf("history-%d", len(c.Cases)))
+	return nil
+}
+
+func nudge(t *rapid.T, v int64, lo, hi int64, label string) int64 {
+	var n int64
+	switch rapid.IntRange(0, 3).Draw(t, label+"How") {
+	case 0:
+		n = v + 1
+	case 1:
+		n = v - 1
+	case 2:
+		n = v ^ (1 << uint(rapid.IntRange(0, 15).Draw(t, label+"Bit")))
+	default:
+		n = v + int64(rapid.IntRange(-300, 300).Draw(t, label+"Delta"))
+	}
+	if n < lo || n > hi || n == v {
+		if v < hi {
+			return v + 1
+		}
+		return v - 1
+	}
+	return n
+}
+
+func genSiblings(t *rapid.T) SibCase {
+	first := gen1(t)
+	first.Cut, first.WrongType, first.RawPrefix, first.Prefix = 0, 0, false, 0
+	first.Msg.WithH = first.Msg.Type == 1006
+	c := SibCase{Cases: []Case{first}}
+	n := rapid.IntRange(1, 4).Draw(t, "nSiblings")
+	const cmax = int64(1)<<37 - 1
+	for i := 0; i < n; i++ {
+		s := c.Cases[len(c.Cases)-1]
+		b := &s.Msg
+		fields := []string{"x", "y", "z", "z", "station", "itrf", "ign", "repeat", "debug"}
+		if b.Type == 1006 {
+			fields = append(fields, "height", "height", "height")
+		}
+		switch rapid.SampledFrom(fields).Draw(t, "field") {
+		case "x":
+			b.X = nudge(t, b.X, -cmax-1, cmax, "x")
+		case "y":
+			b.Y = nudge(t, b.Y, -cmax-1, cmax, "y")
+		case "z":
+			b.Z = nudge(t, b.Z, -cmax-1, cmax, "z")
+		case "station":
+			b.StationID = uint(nudge(t, int64(b.StationID), 0, 4095, "station"))
+		case "itrf":
+			b.ITRFYear = uint(nudge(t, int64(b.ITRFYear), 0, 63, "itrf"))
+		case "ign":
+			b.Ignored3 = (b.Ignored3 + 1) % 4
+		case "height":
+			b.Height = uint(nudge(t, int64(b.Height), 0, 65535, "height"))
+		case "debug":
+			s.Debug = !s.Debug
+		}
+		c.Cases = append(c.Cases, s)
+	}
+	return c
+}
+
+var propSiblings = stats.Prop(R, "siblings", genSiblings, checkSiblings)
+
+func TestSiblings(t *testing.T) { rapid.Check(t, propSiblings) }
+
 func TestReplay(t *testing.T) { R.Replay(t) }
